@@ -739,7 +739,6 @@ fn check_program(rep: &mut Report, pending: &mut Vec<Pending>, p: &Program, orig
     ));
     let mut p_src_params: (Option<String>, Vec<String>) = (p.source().map(|s| s.to_string()), p.params().iter().map(|s| s.to_string()).collect());
     p_src_params.1.sort();
-    let mut first_tree: Option<Value> = None;
     for route in [Route::JsonText, Route::JsonValue, Route::Bincode] {
         let rn = route.name();
         rep.count(Some(&format!("{}|{}|{}", wire_raw, rn, variant)));
@@ -750,6 +749,13 @@ fn check_program(rep: &mut Report, pending: &mut Vec<Pending>, p: &Program, orig
                 continue;
             }
         };
+        // model tie, encoder side
+        match &s {
+            Ser::Bytes(b) => pending.push(Pending { request: format!("serbin {}", wire_raw), implementation: hex(b), level: 9, input: format!("bincode bytes of {}", input) }),
+            // objects are compared unordered, the parameter array sorted on both sides
+            Ser::Tree(t) => pending.push(Pending { request: format!("serjson {}", rich_prog(p, exact)), implementation: canon_tree(t).to_string(), level: 4, input: format!("JSON tree of {}", input) }),
+            Ser::Text(_) => {}
+        }
         let q = match de(&s) {
             Ok(q) => q,
             Err(e) => {
@@ -803,7 +809,6 @@ fn check_program(rep: &mut Report, pending: &mut Vec<Pending>, p: &Program, orig
         // model tie
         match &s {
             Ser::Bytes(b) => {
-                pending.push(Pending { request: format!("serbin {}", wire_raw), implementation: hex(b), level: 9, input: format!("bincode bytes of {}", input) });
                 pending.push(Pending { request: format!("rtbin {}", wire_raw), implementation: rich_prog(&q, exact), level: 9, input: format!("bincode round trip of {}", input) });
                 // truncated streams are rejected, never read as another program
                 let cut = (variant as usize * 7919 + b.len() / 2) % b.len();
@@ -812,10 +817,7 @@ fn check_program(rep: &mut Report, pending: &mut Vec<Pending>, p: &Program, orig
                 }
                 rep.bump("bincode.truncated_stream_rejected");
             }
-            Ser::Tree(t) => {
-                first_tree = Some(t.clone());
-                // objects are compared unordered, the parameter array sorted on both sides
-                pending.push(Pending { request: format!("serjson {}", rich_prog(p, exact)), implementation: canon_tree(t).to_string(), level: 4, input: format!("JSON tree of {}", input) });
+            Ser::Tree(_) => {
                 pending.push(Pending { request: format!("rtjson {}", wire_raw), implementation: rich_prog(&q, exact), level: 9, input: format!("JSON round trip of {}", input) });
             }
             Ser::Text(t) => {
@@ -828,7 +830,6 @@ fn check_program(rep: &mut Report, pending: &mut Vec<Pending>, p: &Program, orig
             }
         }
     }
-    let _ = first_tree;
 }
 
 /// Ask the model in batches (the requests carry whole programs).
